@@ -6,6 +6,15 @@
 //! Scheduling is best effort (rayon hands rows to threads dynamically, so nobody ever waits for
 //! "all workers"; arrivals are collected with short quiet periods and every wait has a deadline) —
 //! what is sent to the model is the trace that really happened.
+//!
+//! Policies: Free (no blocking), Random / Fifo / Lifo (block at TaskStart and Candidate, release one at a
+//! time), StaleMax / StaleRandom (let everybody finish the search on the same snapshot, then release into the
+//! lock one by one: maximal staleness), Burst (hold everybody at Candidate, then release ALL at the same
+//! instant so that the critical sections are entered back to back — this is what exposes a validation that
+//! is not atomic with the commit).
+//! Pivot choices are heuristics (`cmp_rows`/`cmp_cols`): the model accepts any candidate the code picks as
+//! long as it is still marked Candidate in the model; retry/commit decisions, snapshot lengths and commit
+//! indices are compared exactly.
 
 use std::sync::{Arc, Condvar, Mutex};
 use std::time::{Duration, Instant};
@@ -181,7 +190,7 @@ impl Sched {
         g.max_waiting = g.max_waiting.max(g.waiting.len());
         g.last_arrival = Instant::now();
         self.cv_ctrl.notify_all();
-        let deadline = Instant::now() + Duration::from_secs(3);
+        let deadline = Instant::now() + Duration::from_secs(2);
         loop {
             let pos = g.waiting.iter().position(|t| t.id == id).unwrap();
             if g.waiting[pos].released || g.done {
@@ -271,7 +280,7 @@ where for<'x> &'x R: RingOps<R> {
     let s3 = sched.clone();
     let ctrl = std::thread::spawn(move || s3.controller());
     let a2 = a.clone();
-    let result = guard_timeout(20, move || pool.install(|| find_pivots(&a2, t, c)));
+    let result = guard_timeout(60, move || pool.install(|| find_pivots(&a2, t, c)));
     sched.finish();
     set_hook(None);
     let _ = ctrl.join();
@@ -318,7 +327,7 @@ where for<'x> &'x R: RingOps<R> {
     let pivs = match out.result {
         None => {
             pools.poison(threads);
-            s.oracle(false, "the call never deadlocks: find_pivots did not return within 20 s under the imposed schedule", &desc,
+            s.oracle(false, "the call never deadlocks: find_pivots did not return within 60 s under the imposed schedule", &desc,
                 &format!("trace so far: {:?}", out.trace));
             s.eval_only(&desc, true);
             return;
